@@ -118,7 +118,7 @@ def check_track(ctx, t, m, hist, w):
     return ok and okb
 
 
-ITEMS = ["rest", "name", "note", "list", "container", "low", "high", "strlist", "notelist"]
+ITEMS = ["rest", "name", "note", "list", "container", "low", "high", "strlist", "notelist", "climb"]
 
 
 def make_item(rng, kind, instrument):
@@ -137,6 +137,15 @@ def make_item(rng, kind, instrument):
         nc = NoteContainer(list(names))
         ps = sorted(pitch(x.name, x.octave) for x in nc.notes)
         return list(names), ps, all(lo <= pitch(x, 4) <= hi for x in names)
+    if kind == "climb":
+        # bare names that the container voices upward through several octaves (each next name lies below the previous one
+        # within the octave): what counts for the range is where the notes end up
+        names = rng.sample(["C", "B", "A#", "A", "G#", "G", "F#", "F"], rng.randint(3, 6))
+        names.sort(key=lambda n: -pitch(n, 4))
+        names.insert(0, "C")
+        nc = NoteContainer(list(names))
+        ps = sorted(pitch(x.name, x.octave) for x in nc.notes)
+        return list(names), ps, all(lo <= p <= hi for p in ps)
     if kind in ("strlist", "notelist"):
         # a plain list of 'Name-octave' strings (or of Notes), three to five of them, with at most one of them far outside
         # every range and sitting at any position of the list
